@@ -127,7 +127,8 @@ def render_source(wl, src):
         return parsers.emit_clustal(names, rows, width=src['width'], header=hdr, crlf=bool(src['crlf']), pad=rng.choice([1, 2, 6]), ragged=rag, counts=bool(src.get('counts')), cons=bool(src.get('cons')))
     kind = 'P' if wl['kind'] == 'protein' else 'N'
     rag = [rng.choice([b' ', b'  ', b'      ', b'   ']) for _ in range(5)] if src.get('ragged') else None
-    return parsers.emit_msf(names, rows, width=src['width'], group=rng.choice([0, 10]), kind=kind, crlf=bool(src['crlf']), gapch=sym.encode(), ragged=rag)
+    return parsers.emit_msf(names, rows, width=src['width'], group=rng.choice([0, 10]), kind=kind, crlf=bool(src['crlf']), gapch=sym.encode(), ragged=rag,
+                            sep_blank=rng.random() >= 0.3)
 
 
 def plan_for(spec, pres, tag):
